@@ -35,6 +35,21 @@ CLAIMED.update({
          RD_NOTE, "6 C14"),
 })
 
+WR_NOTE = "Trusted: TLC and the Json community module; the harness records every call's result and what the scripted destination received (plus verif-hooks snapshots). Exhaustive only within MC_Writer (every sequence of <= 4 calls from ~33 call shapes on schema S3; 5 calls on subsets in thorough); beyond it documents, presentations, options, sinks and failing calls are sampled. Level 1 (Writer.tla) conformance is a reported statistic. The inherently ambiguous encodings that C07 excludes (global element / raw tag directly after the end of an unknown-size master) are not generated."
+def wr(mode, what, drivers):
+    return ("TLA+ property specification P_%s checked by TLC against the Level 1 writer design (Writer.tla, with the reader design ReaderCore for read-backs) on the bounded model MC_Writer, and against traces recorded from the real TagWriter / TagIterator (trace/WriterTrace.tla, mode %s)" % (mode, mode),
+            "TLC explores MC_Writer and checks %s; then the drivers %s run the real writer (scripted sinks with short writes / Interrupted) and TLC validates each recorded case against P_%s (verdict) and against Writer.tla with result, delivered bytes, open masters and buffer length of every call bound (conformance statistic)." % (what, drivers, mode),
+            WR_NOTE, "6 " + mode)
+CLAIMED.update({
+ "C01": wr("C01", "Inv_C01 (at every successful flush the strict parse of the output - by the reader design - is exactly the flat sequence of accepted tags) for every call sequence", "rt (random trees over S3 and random specifications with ids of 1-8 bytes; Start/End, Full, unknown size, explicit widths, raw tags; payload lengths 0,126-128,16382-16384; 64-bit value lattice; floats by bit pattern; strict read-back with the real iterator)"),
+ "C02": ("TLA+ relation P_C01!Fixpoint checked by TLC on the bounded reader model (Inv_C02 of MC_Reader: every accepted stream re-written through the writer design reads back equal) and on recorded read / re-write / read cases of the real code",
+         "MC_Reader enumerates every byte stream <= 4/5 bytes over the 12-symbol alphabet; for each one the strict design accepts from a root element, the writer design must accept its tags and the re-written bytes must parse to the same tags (Inv_C02). The driver fix reads independently encoded streams with non-canonical encodings (padded and zero-length integers, 4-byte floats, wide / unknown size fields) and mutated streams with the real strict reader, writes the tags back with the real writer and reads again; TLC evaluates the relation per case and Writer.tla conformance per call.",
+         WR_NOTE, "6 C02"),
+ "C09": wr("C09", "Inv_C09 (a Full item leaves exactly the state that Start, children, End leave; the deprecated unknown-size call equals the option-based one) and Inv_C19", "present (all Start/End vs every/sampled subset of masters as Full, deprecated vs option call, sinks taking 1..k bytes or answering Interrupted: byte-identical output; explicit widths 1-8 / unknown size: widths honoured exactly, same ids and payloads in order)"),
+ "C10": wr("C10", "the monitor P_C10 after every call (prefix, nothing handed over while a known-size master is open, destination parses to the accepted tags at every quiescent point, flush closes all) and DestMonotone", "calls, rt, present"),
+ "C19": wr("C19", "Inv_C19 (a rejected call leaves open, wbuf and dest unchanged - also inside Full: all or nothing) and Inv_C19_Class (each kind of invalid call is rejected with its specific error)", "calls (valid call sequences with failing calls of every kind inserted at random positions, paired with the sequence without them: final output and later results equal)"),
+})
+
 NA_REASON = "check not built yet (work in progress in this round)"
 
 def main():
